@@ -78,6 +78,14 @@ def call(case):
     if not isinstance(text, str):
         return {"exc": "returned " + type(text).__name__}
     out = {"ok": enc_str(text)}
+    # the default form canonicalize(v) returns the UTF-8 bytes of the same text (where the text can be encoded)
+    try:
+        b = canonicalize(v)
+        out["u8"] = isinstance(b, bytes) and b == text.encode("utf-8")
+    except UnicodeEncodeError:
+        out["u8"] = None
+    except Exception as e:  # noqa: BLE001
+        out["u8"] = "exc:" + type(e).__name__
     try:
         out["re"] = enc_str(canonicalize(json.loads(text), utf8=False))
     except Exception as e:  # noqa: BLE001
